@@ -12,12 +12,23 @@ def resistor(resistor: ccp.Component, *_) -> ntw.Branch:
     R = float(resistor.value['R'])
     return ntw.Branch(resistor.nodes[0], resistor.nodes[1], elm.resistor(resistor.id, R))
 
+def conductance(conductance: ccp.Component, *_) -> ntw.Branch:
+    G = float(conductance.value['G'])
+    return ntw.Branch(conductance.nodes[0], conductance.nodes[1], elm.conductor(conductance.id, G))
+
 def impedance(impedance: ccp.Component, *_) -> ntw.Branch:
     Z = complex(
         float(impedance.value['R']),
         float(impedance.value['X'])
     )
     return ntw.Branch(impedance.nodes[0], impedance.nodes[1], elm.impedance(impedance.id, Z))
+
+def admittance(admittance: ccp.Component, *_) -> ntw.Branch:
+    Y = complex(
+        float(admittance.value['G']),
+        float(admittance.value['B'])
+    )
+    return ntw.Branch(admittance.nodes[0], admittance.nodes[1], elm.admittance(admittance.id, Y))
 
 def capacitor(capacitor: ccp.Component, w: float = 0, *_) -> ntw.Branch:
     C = float(capacitor.value['C'])
@@ -177,7 +188,9 @@ def resistive_load(load: ccp.Component, *_) -> ntw.Branch:
 
 transformers : dict[str, CircuitComponentTranslator] = {
     'resistor' : resistor,
+    'conductance' : conductance,
     'impedance' : impedance,
+    'admittance' : admittance,
     'capacitor' : capacitor,
     'inductance' : inductance,
     'dc_voltage_source' : dc_voltage_source,
